@@ -8,3 +8,4 @@ import RaftWal.Props.C06
 #print axioms RaftWal.C06.visible_only_after_sync
 #print axioms RaftWal.C06.reads_gated_on_commit_index
 #print axioms RaftWal.C06.finalizer_attached_after_publish
+#print axioms RaftWal.C06.writers_wait_for_queued_rotation
